@@ -22,10 +22,11 @@ from spec.seq import N, NW, Seq, select, at_most_one
 from spec.components import BasicFifoRep, ForwarderRep
 
 PROPERTY = "C19"
+HISTORY_LEMMAS = ['queue_kth', 'queue_prefix']  # lemmas/History.lean: one-cycle contracts => history-level statement (Lean 4)
 LEVEL = "proof"
 ASSUMPTIONS = [
     "Serializer: clear runs only when no request is pending and none is issued in the same cycle (the property is about request/response histories; a clear that drops a pending or concurrent request id necessarily orphans the server's response)",
-    "paper lemma (not machine-checked): in a FIFO queue the k-th pushed element is the k-th popped; with the machine-checked facts 'read pops both heads together' and the ghost counters this gives 'k-th argument paired with k-th result'",
+    "the k-th pushed element of a FIFO queue is the k-th popped: Lean lemma Hist.queue_kth (machine-checked); with the machine-checked facts 'read pops both heads together' and the ghost counters this gives 'k-th argument paired with k-th result'",
     "(port_count, depth) swept as listed; unbounded in inputs and history length",
 ]
 
